@@ -354,9 +354,14 @@ func (vc *FnVC) embPtr(structT types.Type, idx int, ref string) string {
 	vc.enc.declFun("un"+fn, []string{sInt}, sInt)
 	t := "(" + fn + " " + ref + ")"
 	key := "embfact:" + t
-	if !vc.enc.declared[key] {
+	if !vc.enc.declared[key] && !strings.Contains(ref, "q$") && !strings.Contains(ref, "op$") {
 		vc.enc.declared[key] = true
 		vc.emit(and(eq("(un"+fn+" "+t+")", ref), "(< "+t+" 0)"))
+	}
+	if !vc.enc.declared["embax:"+fn] {
+		// injectivity and sign of embedded-struct addresses, for every object
+		vc.enc.declared["embax:"+fn] = true
+		vc.enc.header = append(vc.enc.header, "(assert (forall ((r Int)) (! (and (= (un"+fn+" ("+fn+" r)) r) (< ("+fn+" r) 0)) :pattern (("+fn+" r)))))")
 	}
 	return t
 }
